@@ -89,7 +89,7 @@ var checkC13v2Decode = register("C13/v2decode", func(c scoreCase2) string {
 func TestC13(t *testing.T) {
 	c := begin(t, "C13")
 	defer c.end()
-	c.rec.F.Rule = "v3: all 518,400 version x base x temporal combinations as field-built objects with every environmental metric Not Defined (temporal <= base; all-X temporal == base; all-X environmental == temporal unless v3.1 and S:C) and all 5,184 base vectors through the environmental decoder with the optional metrics omitted and with X spelled out; v2: all 73,629 base x temporal vectors through Decode (temporal <= base, absent or all-ND group == base) and the Target Distribution None slice (quick: 1,000,000 seeded pseudo-random bijective sample of 729 x 101 x 384; thorough: complete 28,273,536). Non-trivial: base > 0 with a defined temporal metric (for <=), or an all-Not-Defined twin (for neutrality), or a TD:N vector with non-zero adjusted score potential; enumerated points are distinct by construction."
+	c.rec.F.Rule = "v3: all 518,400 version x base x temporal combinations as field-built objects with every environmental metric Not Defined (temporal <= base; all-X temporal == base; all-X environmental == temporal unless v3.1 and S:C) and all 5,184 base vectors through the environmental decoder with the optional metrics omitted and with X spelled out; v2: all 73,629 base x temporal vectors through Decode (temporal <= base, absent or all-ND group == base) and the Target Distribution None slice (quick: 4,000,000 seeded pseudo-random bijective sample of 729 x 101 x 384; thorough: complete 28,273,536). Non-trivial: base > 0 with a defined temporal metric (for <=), or an all-Not-Defined twin (for neutrality), or a TD:N vector with non-zero adjusted score potential; enumerated points are distinct by construction."
 	c.rec.F.Assumptions = []string{"metamorphic oracle: only relations between library scores are asserted"}
 	var evals, nt int64
 	nviol := 0
@@ -185,7 +185,7 @@ func TestC13(t *testing.T) {
 			}
 		} else {
 			key := mix(uint64(seed), 0xc13)
-			for k := uint64(shard); k < 1000000 && nviol == 0; k += uint64(shards) {
+			for k := uint64(shard); k < 4000000 && nviol == 0; k += uint64(shards) {
 				one(permIndex(k, space, key))
 			}
 		}
